@@ -90,6 +90,22 @@ def run(prop, mod, build, tier, seed, t0):
     except vlib.CoqEvalError as ex:
         obligations.append(("correspondence-evaluation", "broken", str(ex)[-1500:]))
         proof_broken = [o for o in obligations if o[1] != "proved"]
+        # The judges do not build against the definitions regenerated from the current source.  Search
+        # for a concrete failing input with the REFERENCE model instead (the committed Gen/ files, i.e.
+        # the definitions generated from the tree on which every theorem was proved): a case on which
+        # the implementation now differs from that proved model is a failing input.
+        ref = vlib.Build(os.path.basename(build.dir) + "-ref")
+        try:
+            ref.prepare(regenerate=False)
+            report = {"coverage": {}, "notes": ["judged with the reference model (committed Gen/) because the "
+                                                "regenerated development does not build"]}
+            violations = mod.campaign(ref, tier, seed, report, budget=3)
+            for v in violations:
+                v.setdefault("judged_by", "reference model (committed Gen/)")
+        except Exception:  # noqa: BLE001
+            report.setdefault("notes", []).append("search with the reference model failed: " + traceback.format_exc()[-600:])
+        finally:
+            ref.cleanup()
     except Exception:  # noqa: BLE001
         obligations.append(("correspondence-harness", "broken", traceback.format_exc()[-1500:]))
         proof_broken = [o for o in obligations if o[1] != "proved"]
